@@ -307,7 +307,7 @@ func runRoundTrip(t *rapid.T, sub string, gpos bool, only int) {
 	if strings.Contains(text, "\"") {
 		labels = append(labels, "text:quoted-string")
 	}
-	if strings.Contains(text, "-") && rangeRe.MatchString(text) {
+	if !gpos && rangeRe.MatchString(text) {
 		labels = append(labels, "text:range")
 	}
 	stats.CaseIn(sub, stats.Hash(fs.String(), normList(lc.ll)), nt, func() string { return describe(text) }, labels...)
